@@ -718,6 +718,65 @@ func ruleTagRound6b(c *Ctx) {
 						bad = cd.String()
 					}
 				}
+				// must-pass-through: from the success branch of the rewrite's error test, no path reaches the
+				// next iteration or the final return without calling format
+				for _, rb := range f.Blocks {
+					for _, rin := range rb.Instrs {
+						rcn, rcall := staticCalleeName(rin)
+						if rcall == nil || rcn != "cmd/plenctag.config.rewrite" {
+							continue
+						}
+						// the If that tests rewrite's error
+						var start *ssa.BasicBlock
+						for _, r := range *rcall.Referrers() {
+							ex, ok := r.(*ssa.Extract)
+							if !ok || !isErrorType(ex.Type()) {
+								continue
+							}
+							for _, r2 := range *ex.Referrers() {
+								if bo, ok := r2.(*ssa.BinOp); ok {
+									for _, r3 := range *bo.Referrers() {
+										if ifi, ok := r3.(*ssa.If); ok {
+											start = ifi.Block().Succs[1]
+											if bo.Op == token.EQL {
+												start = ifi.Block().Succs[0]
+											}
+										}
+									}
+								}
+							}
+						}
+						if start == nil {
+							continue
+						}
+						seenB := map[*ssa.BasicBlock]bool{}
+						var escape func(bb *ssa.BasicBlock) bool
+						escape = func(bb *ssa.BasicBlock) bool {
+							if bb == b {
+								return false // reached the format call
+							}
+							if seenB[bb] {
+								return false
+							}
+							seenB[bb] = true
+							if bb == rb || bb.Dominates(rb) {
+								return true // back at (or before) the rewrite call: next file without formatting this one
+							}
+							if _, isRet := bb.Instrs[len(bb.Instrs)-1].(*ssa.Return); isRet {
+								return true
+							}
+							for _, s := range bb.Succs {
+								if escape(s) {
+									return true
+								}
+							}
+							return false
+						}
+						if escape(start) {
+							bad = "a path from a successful rewrite that skips format"
+						}
+					}
+				}
 				c.Oblige("G.write", bad == "", call.Pos(), "cmd/plenctag.run", "every successfully rewritten file is formatted and written",
 					"whether the result is written may depend only on errors: a file in which every remaining field was excluded (plenc:\"-\") has changed too, and skipping the write because 'no index was handed out' leaves fields without a plenc tag, which plenc rejects"+
 						map[bool]string{true: "", false: "; the write is also conditional on " + bad}[bad == ""], nil)
